@@ -56,6 +56,8 @@ SWALLOWED = []  # (block, exception kind): a probe handler caught the exception 
 EXC_EXITS = []  # exception kinds that left an event handler
 DEEP = []       # handler entries at a nesting depth that no documented window allows
 BUSY_OK = []    # blocks whose event() returned normally although their handler was running (probe depth > 0)
+NOT_TOP = []    # a Repeat block forwarded outside of its own handler / re-sent while some block was locked
+REPEAT_INTERVAL_US = 700_000
 
 
 # ---------------------------------------------------------------- real blocks with probes
@@ -208,6 +210,69 @@ class _FsmProbe(_Traced, _Scripted):
 
 
 TIMER_HOOK = [None]
+RESEND_HOOK = [None, None]      # (record a repetition, flush the record of a failed one)
+
+
+class _EvProxy:
+    """stands for `Repeat._repeated_event`: observes (not alters) the sends of the block"""
+
+    def __init__(self, blk, ev):
+        self._blk, self._ev = blk, ev
+
+    @property
+    def etype(self):
+        return self._ev.etype
+
+    def send(self, source, /, **data):
+        blk = self._blk
+        rep = data.get('repeat', 0)
+        if getattr(blk, '_c11_depth', 0) > 0 or not rep:
+            # the synchronous forward: must come from inside the block's own handler, guard set
+            if not (getattr(blk, '_c11_depth', 0) == 1 and blk._event_active):
+                NOT_TOP.append(f"{blk.name}: forward outside of its handler (depth {getattr(blk, '_c11_depth', 0)}, "
+                               f"_event_active={blk._event_active})")
+            return self._ev.send(source, **data)
+        # a repetition sent by the main task
+        try:
+            ret = self._ev.send(source, **data)
+        except (Exception, Overflow) as err:    # pylint: disable=broad-except
+            RESEND_HOOK[0](blk, rep, err)
+            raise
+        RESEND_HOOK[0](blk, rep, None)
+        return ret
+
+
+class TRepeat(_Traced, edzed.Repeat):
+    """edzed.Repeat with probes: enter/exit log around Repeat._event, one protocol line per repetition"""
+
+    def _event(self, etype, data):
+        self._c11_enter(data)
+        ok = False
+        try:
+            ret = super()._event(etype, data)
+            ok = True
+            return ret
+        finally:
+            self._c11_exit(ok)
+
+    def set_output(self, value):
+        if getattr(self, '_c11_depth', 0) > 0 or not value:
+            return super().set_output(value)
+        # the main task begins a repetition: it runs outside of every handler
+        locked = [b.name for b in self.circuit.getblocks(edzed.SBlock) if b._event_active]
+        if locked:
+            NOT_TOP.append(f"{self.name}: repetition {value} begins while {locked} are locked")
+        try:
+            return super().set_output(value)
+        except (Exception, Overflow) as err:    # pylint: disable=broad-except
+            RESEND_HOOK[0](self, value, err)
+            raise
+
+    async def _task_monitor(self, coro, is_service=False):
+        try:
+            return await super()._task_monitor(coro, is_service)
+        finally:
+            RESEND_HOOK[1](self)
 
 
 def make_fsm(i, b, slots, kw):
@@ -355,6 +420,8 @@ def def_lines(scn):
             tm = '|'.join('-' if t is None else f'{enc_etype(t[0])}@{t[1]}' for t in b['timed'])
             lines.append(f"dispatch blk {i} fsm {b['n']} {tr} {'|'.join(enc_script(x) for x in b['enter'])} "
                          f"{'|'.join(enc_script(x) for x in b['exit'])} {tm}")
+        elif b['kind'] == 'repeat':
+            lines.append(f"dispatch blk {i} repeat {b['dest']} n:{b['etype']} {'n' if b['count'] is None else b['count']}")
         elif b['kind'] == 'outfunc':
             f = b['func']
             lines.append(f"dispatch blk {i} outfunc {f if isinstance(f, str) else 'c' + enc(f[1])}")
@@ -384,6 +451,10 @@ def build(scn):
             blk = TInput(f'b{i}', **kw)
         elif b['kind'] == 'fsm':
             blk = make_fsm(i, b, slots, kw)
+        elif b['kind'] == 'repeat':
+            blk = TRepeat(f'b{i}', dest=f"b{b['dest']}", etype=b['etype'], count=b['count'],
+                          interval=REPEAT_INTERVAL_US / 1e6, **kw)
+            blk._repeated_event = _EvProxy(blk, blk._repeated_event)
         elif b['kind'] == 'outfunc':
             blk = TOutputFunc(f'b{i}', func=py_func(b['func']), on_success=slots['s'], on_error=slots['r'], **kw)
         else:
@@ -433,7 +504,7 @@ def followups(scn):
     out = []
     for i, b in enumerate(scn['blocks']):
         # harmless events that pass the guard: ping / a call that does not bind / an unknown type
-        out.append(['raw', i, ['n', {'probe': 'ping', 'outfunc': 'zz', 'fsm': 'zz'}.get(b['kind'], 'put')], {}])
+        out.append(['raw', i, ['n', {'probe': 'ping', 'outfunc': 'zz', 'fsm': 'zz', 'repeat': 'zz'}.get(b['kind'], 'put')], {}])
     return out
 
 
@@ -449,6 +520,7 @@ def run_impl(scn):
     del SWALLOWED[:]
     del EXC_EXITS[:]
     del DEEP[:]
+    del NOT_TOP[:]
 
     def build_circuit(circuit):
         ctx['blocks'] = build(scn)
@@ -471,7 +543,9 @@ def run_impl(scn):
         del EXC_EXITS[:]
         deep = list(DEEP)
         del DEEP[:]
-        steps.append({'deep': deep, 'op': op, 'res': res, 'items': items, 'refused': refused, 'busy_ok': busy_ok, 'swallowed': swallowed, 'exc_exits': exc_exits,
+        not_top = list(NOT_TOP)
+        del NOT_TOP[:]
+        steps.append({'not_top': not_top, 'deep': deep, 'op': op, 'res': res, 'items': items, 'refused': refused, 'busy_ok': busy_ok, 'swallowed': swallowed, 'exc_exits': exc_exits,
                       'active': [b.name for b in blocks if b._event_active],
                       'error': kind_of(sim.circuit.error),
                       'maxdepth': max((getattr(b, '_c11_max', 0) for b in blocks), default=0)})
@@ -493,6 +567,24 @@ def run_impl(scn):
 
     TIMER_HOOK[0] = timer_hook
 
+    def resend_hook(blk, rep, err):
+        # a repetition was sent by the main task of a Repeat block (called where it ends)
+        d = int(blk.name[1:])
+        if err is None:
+            record(f"dispatch resend {d} {rep}", {'kind': 'resend', 'd': d, 'follow': False}, 'ret n', None)
+        else:
+            # the task is about to die; the record is completed when its monitor has seen the exception
+            ctx.setdefault('pending', {})[blk.name] = (d, rep, err)
+
+    def resend_flush(blk):
+        pend = ctx.get('pending', {}).pop(blk.name, None)
+        if pend is not None:
+            d, rep, err = pend
+            record(f"dispatch resend {d} {rep}", {'kind': 'resend', 'd': d, 'follow': False}, 'exc ' + kind_of(err), err)
+
+    RESEND_HOOK[0] = resend_hook
+    RESEND_HOOK[1] = resend_flush
+
     def stop_line():
         ctx['stopped'] = True
         lines.append('dispatch stop')
@@ -502,6 +594,18 @@ def run_impl(scn):
         blocks = ctx['blocks']
         for op in ops:
             kind = op[0]
+            if kind == 'adv':
+                # let the virtual time pass: the main tasks of the Repeat blocks re-send (and FSM timers fire)
+                if loop is None:
+                    continue
+                if sim.circuit.error is None:
+                    await vtime.advance_to(loop, round(loop.time() * 1e6) + REPEAT_INTERVAL_US)
+                    await vtime.settle(loop)
+                if sim.circuit.error is not None and not ctx.get('stopped'):
+                    while not sim.simtask.done():
+                        await asyncio.sleep(0)
+                    stop_line()
+                continue
             if kind == 'tick':
                 # let the earliest timer fire (virtual time); once the simulation has been aborted, yielding
                 # to the loop lets the simulation task finish: all blocks are stopped, the timers cancelled
@@ -534,7 +638,7 @@ def run_impl(scn):
 
     async def drive(sim, blocks):
         # the start-up went well
-        record('dispatch init', {'kind': 'init'}, 'ret n', None)
+        record('dispatch init', {'kind': 'init'}, 'ret n' if sim.circuit.error is None else 'exc ' + kind_of(sim.circuit.error), None)
         await do_ops(scn['ops'], False, sim.loop)
         await do_ops(followups(scn), True, sim.loop)
 
@@ -556,6 +660,9 @@ def run_impl(scn):
             tags.append('res=' + s['res'].split()[0] + ('' if s['res'].startswith('ret') else ':' + s['res'].split()[1]))
         if s['refused'] != '-':
             tags.append('refused')
+        if s['op']['kind'] == 'resend':
+            tags.append('resend=' + s['res'].split()[0] + ('' if s['res'].startswith('ret') else ':' + s['res'].split()[1])
+                        + (':refused' if s['refused'] != '-' else ''))
     tags = sorted(set(tags))
     return {'lines': lines, 'trace': trace, 'steps': steps, 'tags': tags, 'nontrivial': entered > 0}
 
@@ -573,6 +680,9 @@ def oracle(scn, res):
         if deep:
             out.append({'clause': 'no_nested_handling',
                         'what': f"step {i} {op}: handler entered while the block was handling an event: {deep}"})
+        if s['not_top']:
+            out.append({'clause': 'repeat_resend_is_top_level',
+                        'what': f"step {i} {op}: {s['not_top']}"})
         if s['busy_ok']:
             out.append({'clause': 'recursion_is_refused_and_aborts',
                         'what': f"step {i} {op}: an event addressed to a block that was handling an event was "
@@ -591,7 +701,8 @@ def oracle(scn, res):
         #    an event was refused by a busy block (whoever catches that exception); a failed start-up
         failed = s['res'].startswith('exc')
         expect = any(k != 'UnknownEvent' for k in s['exc_exits']) or s['refused'] != '-'
-        if op['kind'] == 'init':
+        if op['kind'] in ('init', 'resend'):
+            # a failed start-up; an exception ending the main task of a block (its monitor aborts)
             expect = expect or failed
         else:
             if s['refused'] != '-' and not failed and not s['swallowed']:
@@ -643,9 +754,45 @@ def outf(func='v'):
     return {'kind': 'outfunc', 'func': func}
 
 
+def rpt(dest, etype='put', count=None):
+    return {'kind': 'repeat', 'dest': dest, 'etype': etype, 'count': count}
+
+
 def seeds():
     E = lambda d, name, data=None: ['ext', d, name, data or {}]
     R = lambda d, et, data=None: ['raw', d, et, data or {}]
+    A = ['adv']
+    # Repeat: forwards from inside its handler, re-sends from its main task (count 2: two repetitions)
+    yield {'blocks': [rpt(1, 'put', 2), inp()], 'edges': [], 'ops': [E(0, 'put', {'value': 1}), A, A, A, E(0, 'zz'), E(0, 'put', {'value': 2}), A]}
+    # ... A -> Repeat -> A: a recursion on A (refused at the forward, nothing queued: no repetition)
+    yield {'blocks': [inp(), rpt(0, 'put')], 'edges': [[0, 'o', 1, N('put'), ['u']]], 'ops': [E(0, 'put', {'value': 1}), A, A]}
+    # ... Repeat -> A -> the same Repeat: a recursion on the Repeat
+    yield {'blocks': [rpt(1, 'put'), inp()], 'edges': [[1, 'o', 0, N('put'), ['u']]], 'ops': [E(0, 'put', {'value': 1}), A]}
+    # ... a Repeat repeating to itself
+    yield {'blocks': [rpt(0, 'put')], 'edges': [], 'ops': [E(0, 'put', {'value': 1}), A]}
+    # ... the loop is closed only at the first repetition: Repeat's own output event (output 0 -> 1) reaches
+    #     the destination's sender; the re-send itself finds clean flags
+    yield {'blocks': [rpt(1, 'inc'), cnt(), probe(a=[['s', 0, None]])],
+           'edges': [[0, 'o', 2, N('a'), ['u', 'v']], [2, 'x', 0, N('inc'), []]], 'ops': [E(0, 'inc'), A, A]}
+    # ... the destination refuses the forward (unknown type / missing parameter): nothing queued, no abort
+    yield {'blocks': [rpt(1, 'zz'), inp(), rpt(1, 'put', 1)], 'edges': [], 'ops': [E(0, 'zz'), A, E(2, 'put'), A, E(2, 'put', {'value': 3}), A, A]}
+    # ... the destination fails at a repetition only (Counter modulo: TypeError never; probe raising on value 1)
+    yield {'blocks': [rpt(1, 'need', None), probe(need=[['o', 1], ['s', 0, None]]), inp()],
+           'edges': [[1, 'x', 2, N('put'), []], [2, 'o', 0, N('need'), ['u']]], 'ops': [E(0, 'need', {'value': 5}), A]}
+    # ... Repeat -> Repeat -> Input, and an FSM driven by repetitions
+    yield {'blocks': [rpt(1, 'put', 1), rpt(2, 'put', 1), inp()], 'edges': [], 'ops': [E(0, 'put', {'value': 1}), A, A, A]}
+    yield {'blocks': [rpt(1, 'e0', 3), fsm(2, [['e0', None, 1], ['e1', 1, 0]], timed=[None, [N('e1'), 1]])],
+           'edges': [[1, 'en1', 0, N('e0'), ['v']]], 'ops': [E(0, 'e0'), A, A, ['tick'], A]}
+    # ... the loop is met by the repetition only: the FSM has no transition for the repeated event in its new
+    #     state and reports that (on_notrans) to the Repeat, which forwards it to the busy FSM
+    yield {'blocks': [rpt(1, 'e0'), fsm(2, [['e0', 0, 1], ['e0', 1, None]])], 'edges': [[1, 'nt', 0, N('e0'), []]],
+           'ops': [E(0, 'e0'), A, A, E(0, 'e0')]}
+    # ... an exception that does not abort by itself (unknown type at a repetition: the FSM has left the state
+    #     that knows... no: unknown is per class) -> a missing parameter at the repetition is impossible too;
+    #     a probe destination whose handler raises at the second call
+    yield {'blocks': [rpt(1, 'a', 2), probe(a=[['s', 0, None]]), cnt(mod=None, initdef=0), probe(a=[['r']])],
+           'edges': [[1, 'x', 2, N('inc'), []], [2, 'o', 3, ['c', N('a'), ['0']], [['s', 0], 'w', ['s', 1]]]],
+           'ops': [E(0, 'a'), A, A]}
     # OutputFunc: on_success loops straight back (through a filter only) / through another block;
     # a failing function whose on_error event loops back; no loop
     yield {'blocks': [outf()], 'edges': [[0, 's', 0, N('put'), [['s', 2]]]], 'ops': [E(0, 'put', {'value': 1})]}
@@ -739,9 +886,13 @@ def seeds():
 VALUES = [0, 1, 2, 3, True, False]
 
 
-def rand_etype(rng, kind, depth=0, nst=2):
+def rand_etype(rng, kind, depth=0, nst=2, own=None):
     if kind == 'fsm' and rng.random() < 0.15:
         return ['g', rng.randrange(nst)]
+    if kind == 'repeat':
+        # mostly the type the block repeats
+        return N(own if rng.random() < 0.8 else 'zz') if rng.random() < 0.8 or depth >= 2 else \
+            ['c', N(own), ['0'] if rng.random() < 0.5 else N(own)]
     names = {'fsm': ['e0', 'e0', 'e0', 'e1', 'e1', 'zz'],
              'probe': ['a', 'a', 'b', 'b', 'need', 'ping', 'zz'],
              'input': ['put', 'put', 'put', 'zz'],
@@ -775,9 +926,22 @@ def rand_circuit(rng):
     otherwise events (and loops) occur already during the initialisation"""
     quiet = rng.random() < 0.6
     n = rng.choice([1, 2, 2, 3, 3, 3, 4])
-    kinds = [rng.choice(['probe', 'probe', 'probe', 'input', 'input', 'counter', 'outfunc', 'outfunc', 'fsm', 'fsm', 'fsm'])
+    kinds = [rng.choice(['probe', 'probe', 'probe', 'input', 'input', 'counter', 'outfunc', 'outfunc', 'fsm', 'fsm', 'fsm',
+                         'repeat', 'repeat', 'repeat'])
              for _ in range(n)]
     nst = [rng.choice([2, 2, 3]) for _ in range(n)]     # number of states of the FSMs
+    # Repeat blocks: destination (a fifth: the next block of the backbone, sometimes itself), the repeated type
+    # (mostly one the destination knows; a Repeat feeding a Repeat uses that block's type), count
+    rdest = [(i + 1) % n if rng.random() < 0.4 else rng.randrange(n) for i in range(n)]
+    KNOWN = {'fsm': ['e0', 'e0', 'e1'], 'probe': ['a', 'a', 'b', 'need', 'ping'], 'input': ['put'],
+             'counter': ['inc', 'inc', 'dec', 'put', 'reset'], 'outfunc': ['put'], 'repeat': ['put', 'a']}
+    rtype = [None] * n
+    for i in range(n):
+        if kinds[i] == 'repeat':
+            rtype[i] = rng.choice(KNOWN[kinds[rdest[i]]]) if rng.random() < 0.9 else 'zz'
+    for i in range(n):
+        if kinds[i] == 'repeat' and kinds[rdest[i]] == 'repeat' and rng.random() < 0.8:
+            rtype[i] = rtype[rdest[i]]
     edges, nextra = [], [0] * n
     # a backbone cycle or chain makes loops likely
     shape = rng.random()
@@ -799,7 +963,7 @@ def rand_circuit(rng):
                 fl = rand_filters(rng)
                 if quiet and slot in 'oe':
                     fl.insert(rng.randrange(len(fl) + 1), 'u')
-                edges.append([i, slot, dest, rand_etype(rng, kinds[dest], 0, nst[dest]), fl])
+                edges.append([i, slot, dest, rand_etype(rng, kinds[dest], 0, nst[dest], rtype[dest]), fl])
                 if slot == 'x':
                     nextra[i] += 1
     blocks = []
@@ -818,7 +982,7 @@ def rand_circuit(rng):
                         acts.append(['r'])
                     elif r < 0.96:
                         d = rng.randrange(n)
-                        acts.append(['e', d, rand_etype(rng, kinds[d], 0, nst[d]) if rng.random() < 0.6 else [rng.choice(['e', 'x', '0'])]])
+                        acts.append(['e', d, rand_etype(rng, kinds[d], 0, nst[d], rtype[d]) if rng.random() < 0.6 else [rng.choice(['e', 'x', '0'])]])
                 return acts
             r = rng.random()
             init = [['o', rng.choice(VALUES)]] if r < 0.75 or quiet else (
@@ -859,6 +1023,8 @@ def rand_circuit(rng):
                 return acts
             blocks.append({'kind': 'fsm', 'n': ns, 'trans': trans, 'timed': timed,
                            'enter': [fscript(True) for _ in range(ns)], 'exit': [fscript(False) for _ in range(ns)]})
+        elif k == 'repeat':
+            blocks.append(rpt(rdest[i], rtype[i], rng.choice([None, None, 0, 1, 2])))
         elif k == 'outfunc':
             blocks.append(outf(rng.choice(['v', 'v', 'v', 'f', ['c', rng.choice(VALUES)]])))
         elif k == 'input':
@@ -883,6 +1049,9 @@ def alphabet(rng, circ):
                     ['ext', i, rng.choice(['e1', 'zz']), {}], ['raw', i, ['g', rng.randrange(b['n'])], {}]]
             if any(t is not None and t[1] > 0 for t in b['timed']):
                 ops += [['tick'], ['tick']]
+        elif k == 'repeat':
+            ops += [['ext', i, b['etype'], {'value': rng.choice(VALUES)}], ['ext', i, b['etype'], rng.choice([{}, {'value': rng.choice(VALUES)}])],
+                    ['ext', i, rng.choice([b['etype'], 'zz']), {}], ['adv'], ['adv'], ['adv']]
         elif k == 'outfunc':
             ops += [['ext', i, 'put', {'value': rng.choice(VALUES)}], ['ext', i, 'put', {'value': rng.choice(VALUES)}],
                     ['ext', i, rng.choice(['put', 'zz']), {}]]
@@ -894,7 +1063,7 @@ def alphabet(rng, circ):
                     ['ext', i, 'put', rng.choice([{}, {'value': rng.choice([0, 1, 2, 3])}])]]
     i = rng.randrange(len(circ['blocks']))
     ops.append(['raw', i, rng.choice([['e'], ['x'], ['0'], ['c', ['0'], ['0']],
-                                      ['c', rand_etype(rng, circ['blocks'][i]['kind']), ['0']]]),
+                                      ['c', rand_etype(rng, circ['blocks'][i]['kind'], own=circ['blocks'][i].get('etype')), ['0']]]),
                 rng.choice([{}, {'value': 1}])])
     return ops
 
@@ -916,6 +1085,12 @@ def scenarios(rng, tier):
                 yield {**circ, 'ops': [list(o) for o in seq]}
             continue
         yield {**circ, 'ops': []}
+        reps = [i for i, b in enumerate(circ['blocks']) if b['kind'] == 'repeat']
+        for _ in range(3 if reps else 0):
+            # an event for a Repeat block, time for its repetitions, another event, more time
+            i = rng.choice(reps)
+            ev = ['ext', i, circ['blocks'][i]['etype'], rng.choice([{}, {'value': rng.choice(VALUES)}, {'value': rng.choice(VALUES)}])]
+            yield {**circ, 'ops': [ev, ['adv'], ['adv'], list(rng.choice(alpha)), ['adv']][:rng.choice([2, 3, 5])]}
         for _ in range(nseq):
             yield {**circ, 'ops': [list(rng.choice(alpha)) for _ in range(rng.choice([1, 2, 3, 3, 4]))]}
 
